@@ -210,3 +210,37 @@ func protoReflectStub(w *Worker, fr *frame, args []Value) (Value, bool) {
 	w.stub("generated (*T).ProtoReflect (the generated struct stands in for its protoreflect.Message; protobuf runtime not interpreted)")
 	return Iface{T: fr.fn.Signature.Recv().Type(), V: args[0]}, true
 }
+
+func init() {
+	// ---- C20: HTTP plumbing and JSON rendering are the environment
+	intrinsics["encoding/json.Marshal"] = func(w *Worker, fr *frame, args []Value) (Value, bool) {
+		w.recordCall(fr, args)
+		return Tuple{bytesVal([]byte("<json>")), Iface{}}, true
+	}
+	intrinsics["net/http.Error"] = func(w *Worker, fr *frame, args []Value) (Value, bool) {
+		w.stub("net/http.Error (calls WriteHeader(code) on the ResponseWriter; body not rendered)")
+		it := args[0].(Iface)
+		f := w.E.Prog.LookupMethod(it.T, nil, "WriteHeader")
+		w.call(fr, fr.callpos, f, []Value{it.V, args[2]})
+		return nil, true
+	}
+	intrinsics["(net/http.Header).Set"] = func(w *Worker, fr *frame, args []Value) (Value, bool) {
+		w.stub("net/http.Header.Set (plain map update, no canonicalisation)")
+		w.mapInsert(args[0].(*Map), args[1], Slice{args[2]})
+		return nil, true
+	}
+	intrinsics["(net/http.Header).Del"] = func(w *Worker, fr *frame, args []Value) (Value, bool) {
+		w.mapDelete(args[0].(*Map), args[1])
+		return nil, true
+	}
+	intrinsics["strconv.Atoi"] = func(w *Worker, fr *frame, args []Value) (Value, bool) {
+		s := args[0].(Str)
+		if s.IsConc() && s.S == "SYM" && !w.concrete {
+			// the query parameter is an input: an arbitrary integer
+			w.stub("strconv.Atoi(\"SYM\") (returns an arbitrary symbolic int: the count query parameter as solver variable)")
+			v, _ := sxInt(64)(w, nil, []Value{Str{S: "stub:count"}})
+			return Tuple{v, Iface{}}, true
+		}
+		return nil, false
+	}
+}
